@@ -112,6 +112,11 @@ type Spec struct {
 	// PostProcess, when set, is consulted after Execute in explore/replay mode to
 	// add process-level verdicts (e.g. race detector reports).
 	PostProcess func(o *Outcome)
+	// WarmUp, when set, runs once per process before the first plan, in every mode, OUTSIDE any bubble: one plain
+	// operation of the code under test, so that what it initialises lazily for the whole process (a pool and its filler
+	// goroutine, a registry, a janitor) comes into being outside the bubbles - channels and goroutines created inside
+	// the bubble of one plan must not be used from the bubble of the next (the Go runtime aborts the process).
+	WarmUp func(t *testing.T)
 }
 
 // Replay is the replay file format.
@@ -254,6 +259,9 @@ func RunWorker(t *testing.T, specs []*Spec) {
 			}
 		}
 	}()
+	if spec.WarmUp != nil {
+		spec.WarmUp(t)
+	}
 	switch mode {
 	case "replay":
 		replayMode(t, spec, res)
